@@ -787,11 +787,15 @@ func executePlannedSelection(eCtx *executionContext, sp *selectionPlan, source i
 func resolvePlannedField(eCtx *executionContext, parentType *Object, source interface{}, fp *fieldPlan, path *ResponsePath) (result interface{}, ok bool) {
 	var returnType Output
 	var resolveFieldFinishFn resolveFieldFinishFuncHandler
+	inResolver := false
 	defer func() {
 		if r := recover(); r != nil {
 			// A failed field contributes null, never the value the
 			// resolver returned alongside its error.
 			result = nil
+			if located, isLocated := r.(*gqlerrors.Error); isLocated && inResolver {
+				r = relocateResolverError(located, fp, path)
+			}
 			if resolveFieldFinishFn != nil {
 				// The resolver panicked: the extensions were told that the
 				// field started resolving, so tell them how it ended.
@@ -859,12 +863,14 @@ func resolvePlannedField(eCtx *executionContext, parentType *Object, source inte
 	}
 
 	var resolveFnError error
+	inResolver = true
 	result, resolveFnError = resolveFn(ResolveParams{
 		Source:  source,
 		Args:    args,
 		Info:    info,
 		Context: eCtx.Context,
 	})
+	inResolver = false
 
 	if resolveFieldFinishFn != nil {
 		finishFn := resolveFieldFinishFn
@@ -875,11 +881,27 @@ func resolvePlannedField(eCtx *executionContext, parentType *Object, source inte
 		}
 	}
 	if resolveFnError != nil {
+		if located, ok := resolveFnError.(*gqlerrors.Error); ok {
+			resolveFnError = relocateResolverError(located, fp, path)
+		}
 		panic(resolveFnError)
 	}
 
 	completed := completePlannedValueCatchingError(eCtx, returnType, fp, info, path, result)
 	return completed, true
+}
+
+// relocateResolverError: an error the resolver located itself (NewLocatedError,
+// or one kept from another request), returned or raised, says nothing about
+// where this field sits in this response. It is reported at this field, on a
+// copy: the resolver may hand out the same value again.
+func relocateResolverError(located *gqlerrors.Error, fp *fieldPlan, path *ResponsePath) *gqlerrors.Error {
+	orig := located.OriginalError
+	if orig == nil {
+		orig = located
+	}
+	return gqlerrors.NewErrorWithPath(located.Message, FieldASTsToNodeASTs(fp.fieldASTs),
+		located.Stack, nil, []int{}, path.AsArray(), orig)
 }
 
 func completePlannedValueCatchingError(eCtx *executionContext, returnType Type, fp *fieldPlan, info ResolveInfo, path *ResponsePath, result interface{}) (completed interface{}) {
